@@ -52,6 +52,7 @@ def run(rep):
     partial_rows(rep, wd)
     tiff_subimage(rep, fns)
     bmp_mask_decode(rep, fns)
+    bmp_rle_subrect(rep, fns)
 
 
 def must_call(rep, fns):
@@ -487,3 +488,81 @@ def bmp_mask_decode(rep, fns):
     else:
         rep.fail_analysis("S9: bmp read_data_15 / read_15_bits_row not both instantiated (%s)" % sorted(per))
     rep.floor("obligations:S9", 3)
+
+
+def bmp_rle_subrect(rep, fns):
+    """S10: sub-rectangle reads of run-length encoded BMP files"""
+    from .ir.poly import Poly
+    rep.rule("S10 bmp RLE: the decode buffer holds one whole image row (_info._width pixels), the row counter runs over the image height, and "
+             "copy_row_if_needed copies exactly when top_left.y <= y < top_left.y + dim.y, from columns [top_left.x, top_left.x + dim.x) into view row y - top_left.y")
+    P = lambda n: R.poly_of(n, lambda s: s.replace("this.", ""))
+    A = Poly.atom
+    done = set()
+    for f in fns:
+        if fmt_of(f) != "bmp":
+            continue
+        short = f["name"].split("::")[-1]
+        if short == "read_palette_image_rle" and "rle" not in done:
+            done.add("rle")
+            rep.count("obligations:S10")
+            prob = []
+            bufs = [dd for d, _ in R.find(f["body"], lambda x: x.get("k") == "Decl") for dd in d["decls"] if dd.get("name") == "buf"]
+            if len(bufs) != 1 or R.strip(bufs[0]["init"]).get("k") != "Construct":
+                prob.append("decode buffer declaration not recognised")
+            else:
+                sz = P(R.strip(bufs[0]["init"])["args"][0])
+                if sz != A("_info._width"):
+                    prob.append("the decode buffer has %r elements, the run-length data addresses rows of _info._width pixels" % sz)
+            asg = {}
+            for a, _ in R.find(f["body"], lambda x: x.get("k") == "Assign"):
+                asg.setdefault(R.key(a["l"]), []).append(P(a["r"]))
+            dcl = {dd["name"]: P(dd["init"]) for d, _ in R.find(f["body"], lambda x: x.get("k") == "Decl") for dd in d["decls"] if dd.get("name") in ("ybeg", "yend") and dd.get("init") is not None}
+            yb = [dcl.get("ybeg")] + asg.get("ybeg", [])
+            ye = [dcl.get("yend")] + asg.get("yend", [])
+            if set(map(repr, yb)) != {repr(Poly.const(0)), repr(A("_info._height") - Poly.const(1))} or set(map(repr, ye)) != {repr(A("_info._height")), repr(Poly.const(-1))}:
+                prob.append("row counter runs over ybeg in %s, yend in %s instead of the image height" % ([repr(x) for x in yb], [repr(x) for x in ye]))
+            if prob:
+                rep.violation("S10-rle-subrect", "S10:bmp:read_palette_image_rle", R.fn_where(f), {"problems": prob})
+            else:
+                rep.ok("S10-rle-subrect", "S10:bmp:read_palette_image_rle", "buffer of _info._width pixels, rows over _info._height")
+        if short == "copy_row_if_needed" and "copy" not in done:
+            done.add("copy")
+            rep.count("obligations:S10")
+            prob = []
+            cps = R.calls_in(f["body"], lambda n: n == "std::copy")
+            if len(cps) != 1:
+                prob.append("%d std::copy calls" % len(cps))
+            else:
+                c, p = cps[0]
+                pn = [q["name"] for q in f["params"]]
+                ren = lambda s: s.replace("this.", "")
+                gs = [(op, R.poly_of_str(l) if hasattr(R, "poly_of_str") else l, r) for op, l, r in R.guards(p)]
+                # conditions as polynomials  lhs - rhs
+                conds = set()
+                ifs = [anc for anc, fld, _ in p if anc.get("k") == "If" and fld == "then"]
+                for anc in ifs:
+                    for x, _ in R.find(anc["cond"], lambda y: y.get("k") == "Binary" and y.get("op") in ("<", "<=", ">", ">=")):
+                        conds.add((x["op"], repr(P(x["l"]) - P(x["r"]))))
+                y = A(pn[2])
+                want = {(">=", repr(y - A("_settings._top_left.y"))), ("<", repr(y - A("_settings._top_left.y") - A("_settings._dim.y")))}
+                if conds != want:
+                    prob.append("copy condition %s, expected top_left.y <= y < top_left.y + dim.y" % sorted(conds))
+                decl = {dd["name"]: dd["init"] for d, _ in R.find(f["body"], lambda x: x.get("k") == "Decl") for dd in d["decls"] if dd.get("init") is not None}
+                a0, a1, a2 = c["args"]
+                k0 = R.key(decl.get(R.key(a0), a0)).replace("this.", "")
+                k1 = R.key(decl.get(R.key(a1), a1)).replace("this.", "")
+                if k0 != "(%s.begin() + _settings._top_left.x)" % pn[0] or k1 != "(%s + _settings._dim.x)" % R.key(a0):
+                    prob.append("source range %s .. %s" % (k0, k1))
+                rb = p12_first_call(a2, "row_begin")
+                if rb is None or P(rb["args"][0]) != y - A("_settings._top_left.y"):
+                    prob.append("destination row %s, expected y - top_left.y" % (R.key(rb["args"][0]) if rb else R.key(a2)))
+            if prob:
+                rep.violation("S10-rle-subrect", "S10:bmp:copy_row_if_needed", R.fn_where(f), {"problems": prob, "problem": "a sub-rectangle read of an RLE file returns other rows/columns than the crop of the full read (and reads past the row buffer)"})
+            else:
+                rep.ok("S10-rle-subrect", "S10:bmp:copy_row_if_needed", "rows [Y0,Y0+DY) -> y-Y0, columns [X0,X0+DX)")
+    rep.floor("obligations:S10", 2)
+
+
+def p12_first_call(n, suffix):
+    from . import p12
+    return p12.first_call(n, suffix)
